@@ -643,9 +643,26 @@ def corr_unit(args):
         if o.startswith("!"):
             st["dis"].append(({"kind": "model", "doc": doc}, "?", o))
             continue
-        tf, lf, _truth = o.split("\t")
-        text = "\n".join(dec_strs(tf)) + "\n"
+        tf, lf, truthf = o.split("\t")
+        tlines = dec_strs(tf)
+        text = "\n".join(tlines) + "\n"
         pred = dict((int(a), int(b)) for a, b in (x.split(":") for x in lf.split(";"))) if lf != "." else {}
+        truth = dict((int(a), int(b)) for a, b in (x.split(":") for x in truthf.split(";"))) if truthf != "." else {}
+        # [locate] against [print]: the line the model calls the true line of a leaf holds that leaf's marker
+        leaves = []
+
+        def collect(t):
+            if t[0] == "L":
+                leaves.append(t[1])
+            for c in tree_kids(t):
+                collect(c)
+        for t in doc:
+            collect(t)
+        for mk in leaves:
+            ln = truth.get(mk)
+            if ln is None or not (1 <= ln <= len(tlines)) or not re.search(r"(^|[ >])m" + "i" * mk + "$", tlines[ln - 1]):
+                st["dis"].append(({"kind": "model", "doc": doc, "text": text}, f"marker {mk} not on line {ln} of the printed text", "locate"))
+                break
         exp = []
         for t in doc:
             tree_preorder(t, exp)
@@ -743,7 +760,7 @@ def corr(ctx):
     if not ctx.have_runner:
         return
     import multiprocessing as mp
-    total = ctx.budget(6000, 80000, 80000)
+    total = ctx.budget(16000, 160000, 160000)
     nproc = min(16, os.cpu_count() or 4)
     units = [(ctx.rng.getrandbits(48), total // (nproc * 2), 1 + (i % 5)) for i in range(nproc * 2)]
     with mp.get_context("fork").Pool(nproc) as pool:
@@ -765,6 +782,40 @@ def corr(ctx):
                         [d for d in ctx.disagreements if d["case"] is None]
     ctx.suspects = [c for c in ctx.suspects if c]
     include_corr(ctx)
+
+
+def check_model_text(ctx, c):
+    """a document printed by the model on which model and implementation disagreed: independent oracle =
+    every paragraph that holds a marker word m<i...> starts on the line where that word is."""
+    text = c.get("text")
+    if not text:
+        return True
+    tl = text.split("\n")
+    where = {}
+    for i, l in enumerate(tl):
+        m = re.search(r"(^|[ >])m(i*)$", l)
+        if m:
+            where[len(m.group(2))] = i + 1
+    ok = True
+    try:
+        got = observe_model_doc(text)
+    except Exception as e:
+        ctx.fail("exception:" + type(e).__name__, c, f"parsing raised {e!r}")
+        return False
+    for tag, mk, line in got:
+        if tag == "paragraph" and mk in where and line != where[mk]:
+            ctx.fail(f"line:model-doc:{line - where[mk]:+d}" if isinstance(line, int) else "line:model-doc:none", c,
+                     f"paragraph of marker {mk}: line {line}, it starts on line {where[mk]}", expected=where[mk], observed=line)
+            ok = False
+    return ok
+
+
+def check_include_text(ctx, c):
+    """include arithmetic suspect: run the include through the node-level oracle."""
+    para = {"kind": "para", "mk": 1, "p": {}, "ch": []}
+    case = {"doc": [{"kind": "include", "mk": 2, "p": {"fname": "inc2.md", "mode": "start-after" if c.get("start_after") else "plain"}, "ch": []}],
+            "files": {"inc2.md": {"pre": [para], "body": [dict(para, mk=1003)], "post": [], "mode": "start-after" if c.get("start_after") else "plain"}}}
+    return check_case(ctx, case)
 
 
 def search_unit(args):
@@ -813,13 +864,18 @@ def size_of(case):
 def search(ctx):
     for c in ctx.suspects[:100]:
         ctx.search_cases += 1
-        check_case(ctx, c)
+        if c.get("kind") == "model":
+            check_model_text(ctx, c)
+        elif c.get("kind") == "include-arith":
+            check_include_text(ctx, c)
+        else:
+            check_case(ctx, c)
     for c in fixed_cases():
         ctx.search_cases += 1
         ctx.count("search:fixed")
         check_case(ctx, c)
     import multiprocessing as mp
-    total = ctx.budget(2400, 40000, 80000)
+    total = ctx.budget(6400, 60000, 120000)
     nproc = min(16, os.cpu_count() or 4)
     units = []
     for i in range(nproc * 2):
